@@ -14,11 +14,11 @@
 (* trim) and position t of the link is decode-space sample a0 + t.         *)
 (***************************************************************************)
 EXTENDS VFRead, TLC
-CONSTANTS MaxLinks, Shapes, PPPs, S0s, ETs, Muxes, BIdx, PLen, ReadLens, MaxCalls, Ops, DiscardVi
-VARIABLES lay, file, vf, dl, last, ncalls
-vars == <<lay, file, vf, dl, last, ncalls>>
+CONSTANTS MaxLinks, Shapes, PPPs, S0s, ETs, Muxes, BIdx, PLen, ReadLens, MaxCalls, Ops, DiscardVi, Streaming, PinSer
+VARIABLES lay, file, vf, dl, last, ncalls, nxt          \* nxt: ghost, [link, lin] = the decode-space sample that must be handed out next (read-through only)
+vars == <<lay, file, vf, dl, last, ncalls, nxt>>
 K == [chunk |-> 4, near |-> 3, read |-> 2, backup |-> "begin", handover |-> "refetch", clamp |-> TRUE, discardvi |-> DiscardVi]
-BCat == << <<4, 8>>, <<4, 16>> >>          \* block sizes a link can have (BIdx selects)
+BCat == << <<4, 8>>, <<4, 16>>, <<8, 16>> >>          \* block sizes a link can have (BIdx selects)
 WS == << <<0, 0, 0, 0>>, <<0, 1, 1, 0, 0>>, <<1, 1, 0, 1>>, <<0, 0>>, <<1, 0, 0, 0, 1, 1>>, <<0, 1, 0>> >>
 VSer(i) == 10 * i + 1
 FSer(i) == 10 * i + 2
@@ -61,42 +61,62 @@ FileOf(ch) ==
   LET PG == WithOff(Flat(ch, 1), 1, 0)
       o == Open(PG, { VSer(i) : i \in 1..Len(ch) }, K)
   IN [PG |-> PG, ok |-> o.ok, LT |-> o.links, BL |-> [i \in 1..Len(ch) |-> BCat[ch[i].b]]]
-NoOp == [op |-> "none", arg |-> 0, ret |-> 0, t0 |-> 0]
-Init == lay = <<>> /\ file = <<>> /\ vf = <<>> /\ dl = NoDelivery /\ last = NoOp /\ ncalls = 0
+NoOp == [op |-> "none", arg |-> 0, ret |-> 0, t0 |-> 0, due |-> [link |-> 1, lin |-> 0, on |-> FALSE]]
+Init == lay = <<>> /\ file = <<>> /\ vf = <<>> /\ dl = NoDelivery /\ last = NoOp /\ ncalls = 0 /\ nxt = [link |-> 1, lin |-> 0, on |-> FALSE]
 Choose == /\ lay = <<>>
           /\ \E ch \in Chains :
                LET f == FileOf(ch) IN
                /\ lay' = ch /\ file' = f
-               /\ IF f.ok THEN LET o == Opened(f.PG, f.LT, f.BL) IN vf' = o.vf /\ last' = [op |-> "open", arg |-> 0, ret |-> o.ret, t0 |-> 0]
-                  ELSE vf' = <<>> /\ last' = [op |-> "open", arg |-> 0, ret |-> -1, t0 |-> 0]
+               /\ nxt' = [link |-> 1, lin |-> A0(ch[1]), on |-> TRUE]
+               /\ IF f.ok THEN LET o == IF Streaming THEN OpenedStreaming(f.PG, f.LT, f.BL) ELSE Opened(f.PG, f.LT, f.BL) IN vf' = [o.vf EXCEPT !.pinser = PinSer] /\ last' = [NoOp EXCEPT !.op = "open", !.ret = o.ret]
+                  ELSE vf' = <<>> /\ last' = [NoOp EXCEPT !.op = "open", !.ret = -1]
           /\ dl' = NoDelivery /\ ncalls' = 0
 Live == lay # <<>> /\ file.ok /\ last.ret # -999 /\ ncalls < MaxCalls
-Step(op, arg, r) == /\ vf' = r.vf /\ last' = [op |-> op, arg |-> arg, ret |-> r.ret, t0 |-> vf.off] /\ ncalls' = ncalls + 1 /\ UNCHANGED <<lay, file>>
+LinOf(d) == E(BCat[lay[d.link].b], WS[lay[d.link].shape], d.k - 1) + d.j
+\* the ghost of an uninterrupted read-through: after a delivery the next sample due; a seek switches it off
+NxtAfter(op, r) ==
+  IF op # "read" THEN [nxt EXCEPT !.on = FALSE]
+  ELSE IF r.dl.n = 0 \/ ~nxt.on \/ r.dl.hs = 1 THEN nxt
+  ELSE LET c == lay[r.dl.link]  e == LinOf(r.dl) + r.dl.n IN
+       IF e >= A0(c) + N(c) THEN [link |-> r.dl.link + 1, lin |-> IF r.dl.link < Len(lay) THEN A0(lay[r.dl.link + 1]) ELSE 0, on |-> TRUE] ELSE [link |-> r.dl.link, lin |-> e, on |-> TRUE]
+Step(op, arg, r) == /\ nxt' = NxtAfter(op, r) /\ vf' = r.vf /\ last' = [op |-> op, arg |-> arg, ret |-> r.ret, t0 |-> vf.off, due |-> nxt] /\ ncalls' = ncalls + 1 /\ UNCHANGED <<lay, file>>
 DoRead == "read" \in Ops /\ Live /\ \E len \in ReadLens : LET r == Read(file.PG, file.LT, file.BL, vf, len) IN Step("read", len, r) /\ dl' = r.dl
 DoRaw == "raw" \in Ops /\ Live /\ \E p \in 0..DataEnd(file.PG) : LET r == RawSeek(file.PG, file.LT, file.BL, vf, p) IN Step("raw", p, r) /\ dl' = NoDelivery
 DoPcm == "pcm" \in Ops /\ Live /\ \E t \in 0..Total(file.LT) : LET r == PcmSeek(file.PG, file.LT, file.BL, vf, t, K) IN Step("pcm", t, r) /\ dl' = NoDelivery
+DoHalf == "half" \in Ops /\ Live /\ \E fl \in {0, 1} : LET r == HalfRate(file.PG, file.LT, file.BL, vf, fl, K) IN Step("half", fl, r) /\ dl' = NoDelivery
 DoPage == "page" \in Ops /\ Live /\ \E t \in 0..Total(file.LT) : LET r == PcmSeekPage(file.PG, file.LT, file.BL, vf, t, K) IN Step("page", t, r) /\ dl' = NoDelivery
-Next == Choose \/ DoRead \/ DoRaw \/ DoPcm \/ DoPage
+Next == Choose \/ DoRead \/ DoRaw \/ DoPcm \/ DoPage \/ DoHalf
 Spec == Init /\ [][Next]_vars
 
 Chosen == lay # <<>>
 StartOf(i) == SumLen(file.LT, i - 1)
 NoLoopBoundHit == last.ret # -999
 OpenOK == Chosen => /\ file.ok /\ Len(file.LT) = Len(lay) /\ \A i \in 1..Len(lay) : file.LT[i].len = N(lay[i])
-                    /\ last.op = "open" => last.ret = 0 /\ vf.off = 0
+                    /\ (last.op = "open" => last.ret = 0 /\ vf.off = 0)
 \* what a read hands out is what the stand-alone decode of the link has at the position the handle reported before
-PositionTruth == Chosen /\ dl.n > 0 =>
+PositionTruth == Chosen /\ ~Streaming /\ dl.n > 0 /\ dl.hs = 0 =>
   LET c == lay[dl.link]  ws == WS[c.shape]  lin == E(BCat[c.b], ws, dl.k - 1) + dl.j  t == dl.t0 - StartOf(dl.link) IN
   /\ dl.k >= 2 /\ t >= 0 /\ t + dl.n <= N(c)
   /\ lin = A0(c) + t
+\* at half rate every packet produces half as many samples and positions move in steps of two: the sample handed out at position t of the link
+\* is half-rate sample (a0 + t) / 2 of the stand-alone half-rate decode (exactly where a0 + t is even; the property allows the odd case one off)
+PositionTruthHalf == Chosen /\ ~Streaming /\ dl.n > 0 /\ dl.hs = 1 =>
+  LET c == lay[dl.link]  ws == WS[c.shape]  linh == E(BCat[c.b], ws, dl.k - 1) \div 2 + dl.j  t == dl.t0 - StartOf(dl.link) IN
+  /\ dl.k >= 2 /\ t >= -1 /\ t + 2 * dl.n <= N(c) + 2
+  /\ linh = (A0(c) + t) \div 2 \/ (linh = (A0(c) + t + 1) \div 2 /\ (A0(c) + t) % 2 = 1)
+\* reading on without a seek hands out every sample of every link exactly once and in order (seekable and streaming), and ends when all are out
+InOrder == Chosen /\ last.op = "read" /\ last.due.on /\ dl.hs = 0 =>
+  IF dl.n > 0 THEN dl.link = last.due.link /\ LinOf(dl) = last.due.lin ELSE last.due.link = Len(lay) + 1
 ReadContinues == last.op = "read" /\ dl.n > 0 /\ last.t0 # -1 => dl.t0 = last.t0
-ReadOutcome == Chosen /\ last.op = "read" => /\ last.ret >= 0 /\ last.ret = dl.n
+ReadOutcome == Chosen /\ ~Streaming /\ last.op = "read" => /\ last.ret >= 0 /\ last.ret = dl.n
                                              /\ (last.ret = 0 => vf.off = Total(file.LT))
                                              /\ (last.t0 = Total(file.LT) => last.ret = 0)
                                              /\ (last.t0 >= 0 /\ last.t0 < Total(file.LT) => last.ret > 0)
+HalfOutcome == Chosen /\ last.op = "half" => last.ret = 0 /\ vf.hs = last.arg /\ (last.t0 >= 0 => vf.off <= last.t0 /\ vf.off >= last.t0 - 2)
 SeekOutcome == Chosen /\ last.op \in {"raw", "pcm", "page"} =>
   /\ last.ret = 0
   /\ vf.off >= 0 /\ vf.off <= Total(file.LT)
-  /\ (last.op = "pcm" => vf.off = last.arg)
+  /\ (last.op = "pcm" /\ vf.hs = 0 => vf.off = last.arg)
+  /\ (last.op = "pcm" /\ vf.hs = 1 => vf.off <= last.arg /\ vf.off >= last.arg - 2)
   /\ (last.op = "page" => vf.off <= last.arg)
 =============================================================================
